@@ -199,7 +199,7 @@ def _unescape(s, uri=False):
 #   "3.0":  https://web.archive.org/web/20160805064015/http://project-haystack.org:80/doc/Zinc
 
 # Rudimentary elements
-hs_digit = Regex(r'\d')
+hs_digit = Regex(r'[0-9]')
 hs_digits = Regex(r'[0-9_]+').setParseAction(
     lambda toks: [''.join([t.replace('_', '') for t in toks[0]])])
 hs_alphaLo = Regex(r'[a-z]')
